@@ -2,8 +2,8 @@
 //! the library (so the model is known) and is rebuilt identically on replay.
 //!
 //! Grammar: `fresh` | item ('+' item)*, item = `s<K>x<SIZE>` (K streams
-//! /f<i> of SIZE bytes) | `d<K>` (K storages /g<i>) | `b<BYTES>` (one stream
-//! /big of BYTES bytes) | `r<K>x<SIZE>` (create then remove K streams /t<i>).
+//! /f<item>_<i> of SIZE bytes) | `d<K>` (K storages /g<item>_<i>) | `b<BYTES>` (one stream
+//! /big of BYTES bytes) | `r<K>x<SIZE>` (create then remove K streams /t<item>_<i>).
 use crate::ops::Op;
 use crate::runner::{Oracles, Runner};
 
@@ -12,7 +12,7 @@ pub fn seed_ops(seed: &str) -> Result<Vec<Op>, String> {
     if seed == "fresh" {
         return Ok(ops);
     }
-    for item in seed.split('+') {
+    for (j, item) in seed.split('+').enumerate() {
         let (tag, rest) = item.split_at(1);
         match tag {
             "s" | "r" => {
@@ -21,23 +21,23 @@ pub fn seed_ops(seed: &str) -> Result<Vec<Op>, String> {
                 let size: usize = it.next().and_then(|x| x.parse().ok()).ok_or(format!("bad seed item {}", item))?;
                 let pfx = if tag == "s" { "f" } else { "t" };
                 for i in 0..k {
-                    ops.push(Op::Rewrite(format!("/{}{}", pfx, i), size));
+                    ops.push(Op::Rewrite(format!("/{}{}_{}", pfx, j, i), size));
                 }
                 if tag == "r" {
                     for i in 0..k {
-                        ops.push(Op::RemoveStream(format!("/{}{}", pfx, i)));
+                        ops.push(Op::RemoveStream(format!("/{}{}_{}", pfx, j, i)));
                     }
                 }
             }
             "d" => {
                 let k: usize = rest.parse().map_err(|_| format!("bad seed item {}", item))?;
                 for i in 0..k {
-                    ops.push(Op::CreateStorage(format!("/g{}", i)));
+                    ops.push(Op::CreateStorage(format!("/g{}_{}", j, i)));
                 }
             }
             "b" => {
                 let n: usize = rest.parse().map_err(|_| format!("bad seed item {}", item))?;
-                ops.push(Op::Rewrite("/big".into(), n));
+                ops.push(Op::Rewrite(format!("/big{}", j), n));
             }
             _ => return Err(format!("bad seed item {}", item)),
         }
